@@ -526,6 +526,10 @@ func ZZ_C13_request_object() {
 	r := defaultRegistration()
 	kind := zz.Choice("client", 3)
 	registered := zz.StringEx("registered_uri", 12, " ")
+	if zz.Choice("registered-literal", 2) == 1 {
+		// a literal registration with letters of both cases: near misses (case variants) of it are decidable
+		registered = "urn:ro:AbC"
+	}
 	switch kind {
 	case 1:
 		r.oidc, r.requestURIs = true, []string{registered}
